@@ -792,20 +792,35 @@ def conv_name(info):
     return None if c is None else f"{c[0]} {c[1]}"
 
 
+def module_of(path):
+    """module part of a def path (`reader::reader_cursor` for `reader::reader_cursor::ReaderCursor::<R>::new`, also for
+    `<reader::reader_cursor::X as Trait>::f`); paths are aligned with the pinned tree's module names by normalize.py,
+    so a renamed file does not show here"""
+    p = path
+    if p.startswith("<"):
+        p = p[1:].split(" as ")[0].lstrip("&").replace("mut ", "")
+    out = []
+    for x in p.split("::"):
+        if not x or x[:1].isupper() or x.startswith(("<", "{", "(", "[", "'")) or "<" in x:
+            break
+        out.append(x)
+    return "::".join(out)
+
+
 def endianness_inventory(F):
-    """every multi-byte integer <-> bytes conversion in library code: (file, function, "<type> <BE|LE|NE> <read|write>")"""
+    """every multi-byte integer <-> bytes conversion in library code: (module, function, "<type> <BE|LE|NE> <read|write>")"""
     out = []
     for b in F.user_bodies():
         for s, c, t in b.calls():
             if c is not None:
                 cv = int_conv(c)
                 if cv and cv[0] not in ("u8", "i8"):
-                    out.append((rel(b.file), b.path, " ".join(cv) + ("  _ne_bytes" if cv[1] == "NE" else "")))
+                    out.append((module_of(b.path), b.path, " ".join(cv) + ("  _ne_bytes" if cv[1] == "NE" else "")))
             for a in t["args"]:
                 if a.get("k") == "const" and "fn" in a:
                     cv = int_conv(a["fn"])
                     if cv:
-                        out.append((rel(b.file), b.path, " ".join(cv) + ("  _ne_bytes" if cv[1] == "NE" else "")))
+                        out.append((module_of(b.path), b.path, " ".join(cv) + ("  _ne_bytes" if cv[1] == "NE" else "")))
         for s, st in b.sites():
             if s.i is not None and st["s"] == "assign":
                 def walk(o):
@@ -813,7 +828,7 @@ def endianness_inventory(F):
                         if o.get("k") == "const" and "fn" in o:
                             cv = int_conv(o["fn"])
                             if cv:
-                                out.append((rel(b.file), b.path, " ".join(cv) + ("  _ne_bytes" if cv[1] == "NE" else "")))
+                                out.append((module_of(b.path), b.path, " ".join(cv) + ("  _ne_bytes" if cv[1] == "NE" else "")))
                         for v in o.values():
                             walk(v)
                     elif isinstance(o, list):
